@@ -174,8 +174,10 @@ impl HalfConnection {
         self.rtt_ms = rtt_ms;
         self.rto_ms = rto_ms;
 
-        // Forget old frame data
-        self.frame_queue.forget_frames(now_ms.saturating_sub(rtt_ms*4), self.send_rate_comp.rtt_ms());
+        // Forget old frame data. Frames are remembered for one RTO (at least 4 RTTs, and longer
+        // while the send rate is low), so that an acknowledgement delayed by a long or newly
+        // increased round-trip time is still recognized and can update the RTT estimate.
+        self.frame_queue.forget_frames(now_ms.saturating_sub(rto_ms.max(rtt_ms*4)), self.send_rate_comp.rtt_ms());
 
         // Fill flush allocation
         self.fill_flush_alloc(now);
